@@ -114,6 +114,10 @@ pub fn exec(case: &Case, ctx: &mut Ctx, rec: &mut Case) -> Hist {
         match op {
             Op::Run { cfg, sched, label } => {
                 let want_snaps = matches!(case.ops.get(oi + 1), Some(Op::CrashImage { .. }));
+                // tasks that outlive this run (never on a tree whose Drop joins the pool) are
+                // kept parked for the next run of the history instead of being let go at once
+                let later_run = case.ops[oi + 1..].iter().any(|o| matches!(o, Op::Run { .. }));
+                crate::ctl::hold_stragglers(later_run && !want_snaps);
                 let before = tree::snapshot(&env.root);
                 env.clear_run_vlog();
                 let sim = env.run(cfg, sched, want_snaps);
@@ -142,6 +146,8 @@ pub fn exec(case: &Case, ctx: &mut Ctx, rec: &mut Case) -> Hist {
                 if poisoned {
                     h.poisoned = true;
                     h.diverged = div;
+                    crate::ctl::hold_stragglers(false);
+                    crate::ctl::drain_stragglers();
                     return h;
                 }
             }
@@ -255,6 +261,8 @@ pub fn exec(case: &Case, ctx: &mut Ctx, rec: &mut Case) -> Hist {
             }
         }
     }
+    crate::ctl::hold_stragglers(false);
+    crate::ctl::drain_stragglers();
     h
 }
 
@@ -401,6 +409,29 @@ fn error_edit_op(rng: &mut Rng, p: &Project, a: &Analysis) -> Option<Op> {
     })
 }
 
+/// Make the output path of one source a symbolic link to a file kept elsewhere in the tree
+/// (`store/...`): builds write through the link, verify reads through it, clean removes the link.
+fn link_an_output(rng: &mut Rng, p: &mut Project, a: &Analysis, ops: &mut Vec<Op>) {
+    if a.n() == 0 {
+        return;
+    }
+    let s = &a.sources[rng.below(a.n())];
+    let kept = format!("store/kept_{}", crate::names::file_name(&s.out));
+    if p.file(&kept).is_some() {
+        return;
+    }
+    p.add_file(&kept, B::s("kept by hand before it became a generated file\n"));
+    ops.insert(
+        0,
+        Op::Plant {
+            entry: Entry::Symlink {
+                path: s.out.clone(),
+                target: gen::rel_path(crate::tree::parent_rel(&s.out), &kept),
+            },
+        },
+    );
+}
+
 fn tamper_op(rng: &mut Rng, path: &str) -> Op {
     let kinds = [
         TamperKind::Flip,
@@ -429,6 +460,7 @@ pub fn gen(prop: &str, seed: u64, index: u64, _tier: Tier) -> Case {
     let mut variant = String::new();
     let mut ops: Vec<Op> = vec![];
     let project;
+    let mut linked_project: Option<Project> = None;
     match prop {
         "C06" => {
             project = gen_project(&mut prng, &hist_opts(false));
@@ -512,6 +544,11 @@ pub fn gen(prop: &str, seed: u64, index: u64, _tier: Tier) -> Case {
             }
             ops.push(Op::Sentinel);
             ops.push(run_op(&mut rng, ModeS::Verify, &inputs, recursive, tn2, "verify-after"));
+            if prng.chance(1, 8) {
+                let mut p6 = project.clone();
+                link_an_output(&mut prng, &mut p6, &a, &mut ops);
+                linked_project = Some(p6);
+            }
         }
         "C07" => {
             let mut p = gen_project(&mut prng, &hist_opts(true));
@@ -549,6 +586,16 @@ pub fn gen(prop: &str, seed: u64, index: u64, _tier: Tier) -> Case {
                 params.insert("shared_temp".into(), "true".into());
             }
             let a = analyze(&p);
+            for s in &a.sources {
+                for t in &s.temps {
+                    if !s.dir.is_empty() && crate::tree::parent_rel(t) == s.dir && prng.chance(1, 3) {
+                        let f = crate::names::file_name(t).to_string();
+                        if p.file(&f).is_none() && !a.gen_all().contains(&f) {
+                            p.add_file(&f, B::s("in the base directory, named like a temp file further down\n"));
+                        }
+                    }
+                }
+            }
             // overlapping inputs as well (the same file named twice, a file and its directory)
             let (mut inputs, mut recursive) = gen::gen_inputs(&mut prng, &a, true);
             // the base directory is a sub-directory now and then: temp targets of the sources in
@@ -621,8 +668,10 @@ pub fn gen(prop: &str, seed: u64, index: u64, _tier: Tier) -> Case {
                     // text back and the final build must not care what the earlier version left
                     let mut restore: Vec<Op> = vec![];
                     let n_edits = rng.range(1, 2);
-                    for _ in 0..n_edits {
-                        let op = if shape == 11 {
+                    // shape 11: one source fails; usually another one has older text as well
+                    let n_edits = if shape == 11 { rng.range(1, 3) } else { n_edits };
+                    for e in 0..n_edits {
+                        let op = if shape == 11 && e == 0 {
                             error_edit_op(&mut rng, &project, &a)
                         } else {
                             edit_source(&mut rng, &project, &a)
@@ -822,6 +871,17 @@ pub fn gen(prop: &str, seed: u64, index: u64, _tier: Tier) -> Case {
                     }
                 }
             }
+            // a file in the base directory that has the name of a temp file written further down
+            for s in &a.sources {
+                for t in &s.temps {
+                    if !s.dir.is_empty() && crate::tree::parent_rel(t) == s.dir && prng.chance(1, 2) {
+                        let f = crate::names::file_name(t).to_string();
+                        if p.file(&f).is_none() && !a.gen_all().contains(&f) {
+                            p.add_file(&f, B::s("in the base directory, named like a temp file further down\n"));
+                        }
+                    }
+                }
+            }
             let (inputs, recursive) = gen::gen_inputs(&mut prng, &a, true);
             let n_ops = rng.range(1, 4);
             ops.push(Op::Sentinel);
@@ -852,10 +912,14 @@ pub fn gen(prop: &str, seed: u64, index: u64, _tier: Tier) -> Case {
                 }
                 ops.push(Op::Sentinel);
             }
+            if prng.chance(1, 8) {
+                link_an_output(&mut prng, &mut p, &a, &mut ops);
+            }
             variant = "mixed".into();
             project = p;
         }
     }
+    let project = linked_project.unwrap_or(project);
     Case {
         property: prop.to_string(),
         variant,
@@ -1007,8 +1071,14 @@ pub fn run(case: &Case, ctx: &mut Ctx) -> CaseOutcome {
                         let after = tree::snapshot(&ctx.env.root);
                         ctx.stats.count(&format!("c10.cli_ops.{}", r.cfg.mode.name()));
                         let a = analyze(&tree::to_project(&before));
-                        let gen = a.gen_all();
-                        let outs: BTreeSet<String> = a.sources.iter().map(|s| s.out.clone()).collect();
+                        let mut gen = a.gen_all();
+                        let mut outs: BTreeSet<String> = a.sources.iter().map(|s| s.out.clone()).collect();
+                        if r.cfg.mode != ModeS::Clean {
+                            let linked: Vec<String> = gen.iter().filter_map(|g| tree::follow(&before, g)).collect();
+                            let linked_outs: Vec<String> = outs.iter().filter_map(|o| tree::follow(&before, o)).collect();
+                            gen.extend(linked);
+                            outs.extend(linked_outs);
+                        }
                         for (p, ch) in tree::diff(&before, &after) {
                             if !gen.contains(&p) {
                                 out.violate("C10", "wrote-outside-own-outputs", format!("[cli {} exit {code}] {ch:?} {p}", r.cfg.mode.name()));
@@ -1130,7 +1200,8 @@ fn oracle_c06(_case: &Case, h: &Hist, ctx: &mut Ctx, out: &mut CaseOutcome, case
         if fresh_ok {
             for i in &req {
                 let o = &a.sources[*i].out;
-                let stored = tree::file_bytes(&r.before, o);
+                // (an output path may be a link to a file kept elsewhere: builds write through it)
+                let stored = tree::file_bytes_follow(&r.before, o);
                 let want = rs.files.get(o).map(|v| v.as_slice());
                 if stored != want || stored.is_none() {
                     up_to_date = false;
@@ -1172,7 +1243,9 @@ fn oracle_c06(_case: &Case, h: &Hist, ctx: &mut Ctx, out: &mut CaseOutcome, case
         }
         // read-only: no output path created, deleted, modified or touched
         let all = analyze(&tree::to_project(&r.before));
-        let outs: BTreeSet<String> = all.sources.iter().map(|s| s.out.clone()).collect();
+        let mut outs: BTreeSet<String> = all.sources.iter().map(|s| s.out.clone()).collect();
+        let linked: Vec<String> = outs.iter().filter_map(|o| tree::follow(&r.before, o)).collect();
+        outs.extend(linked);
         for (p, ch) in tree::diff(&r.before, &r.after) {
             if outs.contains(&p) {
                 out.violate(
@@ -1507,7 +1580,23 @@ fn oracle_c10(_case: &Case, h: &Hist, ctx: &mut Ctx, out: &mut CaseOutcome, case
     for r in &h.runs {
         let a = analyze(&tree::to_project(&r.before));
         let gen = a.gen_all();
-        let outs: BTreeSet<String> = a.sources.iter().map(|s| s.out.clone()).collect();
+        let mut outs: BTreeSet<String> = a.sources.iter().map(|s| s.out.clone()).collect();
+        let mut gen = gen;
+        // a generated path may be a link to a file kept elsewhere: builds and verify's temp
+        // refresh write through it (the file it leads to is the generated file then); clean
+        // removes the link and has no business with the file behind it
+        let linked: BTreeSet<String> = gen.iter().filter_map(|g| tree::follow(&r.before, g)).collect();
+        if !linked.is_empty() {
+            ctx.stats.count("c10.ops_with_linked_generated_path");
+        }
+        if r.cfg.mode != ModeS::Clean {
+            for t in &linked {
+                if outs.iter().any(|o| tree::follow(&r.before, o).as_deref() == Some(t.as_str())) {
+                    outs.insert(t.clone());
+                }
+                gen.insert(t.clone());
+            }
+        }
         let d = tree::diff(&r.before, &r.after);
         ctx.stats.count(&format!("c10.ops.{}.{}", r.cfg.mode.name(), r.sim.verdict.short()));
         if !d.is_empty() {
